@@ -51,7 +51,7 @@ def oracle(case, trace, ix, res):
     order = ('scheduled', 'running', 'done')
     for sample in trace.samples:
         seq = sample['seq']
-        queued = finished = cancelled = False
+        queued = any_finished = cancelled = False
         for who, st in sample['jobs'].items():
             if ix.parent.get(who) is None and who == case['id']:
                 # the top-level scheduler is not a job of anything: never scheduled
@@ -83,9 +83,14 @@ def oracle(case, trace, ix, res):
                         "body %s" % ('entered' if entered else 'not entered: the job is '
                                      'waiting for a window slot'))
                 normal = ex is not None and ex['how'] in NORMAL
-                if st['done'] != normal:
+                # a body that answers its cancellation by raising has finished by raising
+                finished = normal or (ex is not None and ex['how'] == 'cancelled-raise')
+                if st['done'] != finished:
                     bad('done-mismatch', "body exit: %s" % (ex['how'] if ex else None))
-                if normal and ex['how'] == 'return':
+                if not normal and finished:
+                    if st['raised'] != ex['obj']:
+                        bad('wrong-exception', "the body raised %s" % (ex['obj'],))
+                elif normal and ex['how'] == 'return':
                     if st['result'] != ex['obj']:
                         bad('wrong-result', "the body returned %s" % (ex['obj'],))
                     if st['raised'] is not None:
@@ -100,17 +105,18 @@ def oracle(case, trace, ix, res):
                         bad('raised-exception-not-none', "the job has not raised")
                 if not entered and not normal:
                     queued = True
-                if ex is not None and ex['how'] == 'cancelled' or (cancel and not normal):
+                if ex is not None and ex['how'].startswith('cancelled') \
+                        or (cancel and not normal):
                     cancelled = True
                 if normal:
-                    finished = True
+                    any_finished = True
             prev = previous.get(who)
             if prev is not None:
                 for name in order:
                     if prev[name] and not st[name]:
                         bad('predicate-reverted', "%s() went back from True to False" % name)
             previous[who] = st
-        if (queued or cancelled) and finished:
+        if (queued or cancelled) and any_finished:
             nontrivial = True
             if queued:
                 res.label('sample:queued+finished')
